@@ -146,7 +146,7 @@ impl MeCabOovPlugin {
                 pos_id: grammar.handle_user_pos(&cols[4..10], user_pos)?,
             };
 
-            if oov.left_id as usize > grammar.conn_matrix().num_left() {
+            if oov.left_id as usize >= grammar.conn_matrix().num_left() {
                 return Err(SudachiError::InvalidDataFormat(
                     0,
                     format!(
@@ -157,7 +157,7 @@ impl MeCabOovPlugin {
                 ));
             }
 
-            if oov.right_id as usize > grammar.conn_matrix().num_right() {
+            if oov.right_id as usize >= grammar.conn_matrix().num_right() {
                 return Err(SudachiError::InvalidDataFormat(
                     0,
                     format!(
